@@ -126,8 +126,15 @@ impl<'a> Gen<'a> {
                     if self.frozen.iter().any(|f| f == k) && !scoped { continue; }
                     if in_retried && !scoped { continue; }
                     let k2 = *self.rng.pick(&VARS);
-                    let attrs: Vec<(String, String)> = match if self.plain_only { 0 } else { self.rng.below(3) } {
+                    let attrs: Vec<(String, String)> = match if self.plain_only { 0 } else { self.rng.below(5) } {
                         0 => vec![(k.to_string(), self.value())],
+                        // a literal for one name next to a read of that name: the read sees the value in force
+                        // before the <var>, whichever attribute is written first
+                        3 | 4 if k != k2 && !(self.frozen.iter().any(|f| f == k2) && !scoped) => {
+                            let lit = (k.to_string(), self.value());
+                            let read = (k2.to_string(), if self.rng.chance(1, 2) { format!("${k}") } else { format!("<${{{k}}}>") });
+                            if self.rng.chance(1, 2) { vec![lit, read] } else { vec![read, lit] }
+                        }
                         1 => vec![(k.to_string(), format!("${k2}+"))],
                         _ if k != k2 && !(self.frozen.iter().any(|f| f == k2) && !scoped) => vec![(k.to_string(), format!("${k2}")), (k2.to_string(), format!("${k}"))],
                         _ => vec![(k.to_string(), self.value())],
@@ -302,7 +309,7 @@ pub fn run(rep: &mut Report, tier: &str, seed: u64) -> Result<(), String> {
     let mut corr = Stream::new(
         "doc/scoping",
         "correspondence",
-        "fragments (half of them with no variable defined before the first group, so that the scope stack starts empty) of nested g (with attribute locals) / loop (with loop-var) / if scopes, <var> assignments (plain, in terms of current values, two-attribute swaps), probes <rect data-p=\"$a|${b}\"> and, in half of the documents, forward references #z that make the enclosing top-level unit fail and be re-evaluated; implementation (output elements + end-of-run stack heights) vs the Lean control-skeleton model; non-trivial = every case",
+        "fragments (half of them with no variable defined before the first group, so that the scope stack starts empty) of nested g (with attribute locals) / loop (with loop-var) / if scopes, <var> assignments (plain, in terms of current values, two-attribute swaps, a literal next to a read of the same name in either order), probes <rect data-p=\"$a|${b}\"> and, in half of the documents, forward references #z that make the enclosing top-level unit fail and be re-evaluated; implementation (output elements + end-of-run stack heights) vs the Lean control-skeleton model; non-trivial = every case",
     );
     let mut orc = Stream::new(
         "oracle/lexical-binding",
